@@ -15,7 +15,7 @@ mkdir -p "$wt/_demo"
 for f in "$src"/demo* "$src"/*.py "$src"/*.sh; do [ -f "$f" ] || continue; sed "s#/tmp/mut/$id#$wt#g" "$f" > "$wt/_demo/$(basename $f)"; done
 cd "$wt"
 run_demo() {
-  if [ -f _demo/demo_test.py ]; then PYTHONPATH=$wt/src timeout 600 /venv/bin/python -m pytest -q -p no:cacheprovider -x _demo/demo_test.py > "$1" 2>&1; echo $?
+  if [ -f _demo/demo_test.py ]; then PYTHONPATH=$wt/src timeout 600 /venv/bin/python -m pytest -q -p no:cacheprovider --timeout=900 -x _demo/demo_test.py > "$1" 2>&1; echo $?
   else PYTHONPATH=$wt/src timeout 600 /venv/bin/python _demo/demo.py > "$1" 2>&1; echo $?; fi
 }
 rc_without=$(run_demo /tmp/confirm/${id}_$m.demo_without.log)
